@@ -120,6 +120,10 @@ where
 
     // Write the restriction check
     write_check_restrictions_header(writer, rust_name, restrictions)?;
+    if restrictions.is_some() {
+        // facets of a type derived from this one arrive through the parameter; they apply as well
+        writeln!(writer, "     self.value.check_restrictions(outer_restrictions)?;")?;
+    }
     writeln!(writer, "     self.value.check_restrictions(restrictions)")?;
     write_check_restrictions_footer(writer)?;
 
